@@ -254,6 +254,119 @@ Proof.
   simpl. destruct (b ++ [x]) eqn:E; [destruct b; discriminate | exact IHb].
 Qed.
 
+(* ------------------------------------------------------------------------------------------------ *)
+(* 3b. bwalk                                                                                         *)
+(* ------------------------------------------------------------------------------------------------ *)
+
+Lemma take_plain_spec : forall ts p rest,
+  take_plain ts = (p, rest) -> ts = p ++ rest /\ forallb plain p = true.
+Proof.
+  induction ts as [| t r IHr]; intros p rest H; simpl in H.
+  - inversion H. split; reflexivity.
+  - destruct (plain t) eqn:Hp.
+    + destruct (take_plain r) as [p' rest'] eqn:Htp. inversion H; subst p rest. clear H.
+      destruct (IHr p' rest' eq_refl) as [E Hf]. split.
+      * simpl. rewrite <- E. reflexivity.
+      * simpl. rewrite Hp, Hf. reflexivity.
+    + inversion H. split; reflexivity.
+Qed.
+
+Lemma inner_binner : forall g, inner g -> forall ok, binner ok g.
+Proof.
+  intros g Hg. induction Hg as [| t r Hpl Hr IHr | o g c r Ho Hg IHg Hc Hr IHr]; intros ok.
+  - apply bi_nil.
+  - apply bi_plain; [exact Hpl | apply IHr].
+  - apply bi_group; [exact Ho | apply IHg | exact Hc | apply IHr].
+Qed.
+
+Lemma group_bgroup : forall g, group g -> bgroup g.
+Proof.
+  intros g Hg. destruct Hg as [o g c Ho Hg Hc].
+  apply bgroup_intro; [exact Ho | apply inner_binner; exact Hg | exact Hc].
+Qed.
+
+Lemma groups_bgroups_local : forall gs, groups gs -> bgroups gs.
+Proof.
+  intros gs Hgs. induction Hgs as [g Hg | g r Hg Hr IHr].
+  - apply bgroups_one. apply group_bgroup. exact Hg.
+  - apply bgroups_more; [apply group_bgroup; exact Hg | exact IHr].
+Qed.
+
+(* leaving a parenthesis opened before ts: ts splits at the matching close parenthesis; the walk goes on with
+   less fuel and the flag cleared *)
+Lemma bwalk_split : forall n f ts d ok,
+  f <= n -> bwalk f ts (S d) ok = true ->
+  exists g c r f', f' < f /\ ts = g ++ c :: r /\ is_rparen c = true /\ binner ok g /\ bwalk f' r d false = true.
+Proof.
+  induction n as [| n IHn]; intros f ts d ok Hf Hw.
+  - destruct f as [| f0]; [| lia]. simpl in Hw. discriminate.
+  - destruct f as [| f0]; [simpl in Hw; discriminate |].
+    assert (Hf0 : f0 <= n) by lia.
+    cbn [bwalk] in Hw.
+    destruct ts as [| t r]; [simpl in Hw; discriminate |].
+    destruct (is_lparen t) eqn:Hl.
+    { destruct (IHn f0 r (S d) true Hf0 Hw) as (g1 & c1 & r1 & f1 & Hf1 & Er & Hc1 & Hg1 & Hw1).
+      destruct (IHn f1 r1 d false) as (g2 & c2 & r2 & f2 & Hf2 & Er1 & Hc2 & Hg2 & Hw2); [lia | exact Hw1 |].
+      exists (t :: g1 ++ c1 :: g2), c2, r2, f2. split; [lia |]. split; [| split; [| split]].
+      - subst r r1. simpl. rewrite <- app_assoc. reflexivity.
+      - exact Hc2.
+      - apply bi_group; assumption.
+      - exact Hw2. }
+    destruct (is_rparen t) eqn:Hr.
+    { exists [], t, r, f0. split; [lia |]. split; [reflexivity |]. split; [exact Hr |].
+      split; [apply bi_nil | exact Hw]. }
+    destruct (is_lbrace t) eqn:Hlb.
+    { destruct ok; cbn [andb negb Nat.eqb] in Hw; [| discriminate].
+      destruct (take_plain r) as [flat rest] eqn:Htp.
+      apply take_plain_spec in Htp. destruct Htp as [Er Hflat].
+      destruct rest as [| c0 r2]; [discriminate |].
+      destruct (is_rbrace c0) eqn:Hrb; [| discriminate].
+      destruct (IHn f0 r2 d true Hf0 Hw) as (g1 & c1 & r1 & f1 & Hf1 & Er2 & Hc1 & Hg1 & Hw1).
+      exists (t :: flat ++ c0 :: g1), c1, r1, f1. split; [lia |]. split; [| split; [| split]].
+      - subst r r2. simpl. rewrite <- app_assoc. reflexivity.
+      - exact Hc1.
+      - apply bi_brace; assumption.
+      - exact Hw1. }
+    destruct (is_rbrace t) eqn:Hrb; [discriminate |].
+    destruct (IHn f0 r d ok Hf0 Hw) as (g1 & c1 & r1 & f1 & Hf1 & Er & Hc1 & Hg1 & Hw1).
+    exists (t :: g1), c1, r1, f1. split; [lia |]. split; [| split; [| split]].
+    + subst r. reflexivity.
+    + exact Hc1.
+    + apply bi_plain; [| exact Hg1]. unfold plain. rewrite Hl, Hr, Hlb, Hrb. reflexivity.
+    + exact Hw1.
+Qed.
+
+Lemma bwalk_top_bgroups : forall n f ts ok,
+  f <= n -> bwalk f ts 0 ok = true -> ts = [] \/ bgroups ts.
+Proof.
+  induction n as [| n IHn]; intros f ts ok Hf Hw.
+  - destruct f as [| f0]; [| lia]. simpl in Hw. discriminate.
+  - destruct f as [| f0]; [simpl in Hw; discriminate |].
+    cbn [bwalk] in Hw.
+    destruct ts as [| t r]; [left; reflexivity |]. right.
+    destruct (is_lparen t) eqn:Hl.
+    + destruct (bwalk_split f0 f0 r 0 true) as (g & c & r2 & f1 & Hf1 & Er & Hc & Hg & Hw2); [lia | exact Hw |].
+      subst r.
+      assert (Hgrp : bgroup (t :: g ++ [c])) by (apply bgroup_intro; assumption).
+      destruct (IHn f1 r2 false) as [E2 | G2]; [lia | exact Hw2 | |].
+      * subst r2. apply bgroups_one. exact Hgrp.
+      * replace (t :: g ++ c :: r2) with ((t :: g ++ [c]) ++ r2).
+        -- apply bgroups_more; assumption.
+        -- simpl. rewrite <- app_assoc. reflexivity.
+    + destruct (is_rparen t); [discriminate |].
+      destruct (is_lbrace t).
+      * rewrite andb_false_r in Hw. discriminate.
+      * destruct (is_rbrace t); discriminate.
+Qed.
+
+Lemma bgroups_b_sound : forall ts, bgroups_b ts = true -> bgroups ts.
+Proof.
+  intros ts H. unfold bgroups_b in H.
+  destruct ts as [| t r]; [discriminate |].
+  destruct (bwalk_top_bgroups (S (length (t :: r))) (S (length (t :: r))) (t :: r) true) as [E | G];
+    [lia | exact H | discriminate | exact G].
+Qed.
+
 Ltac list_norm := repeat (progress (rewrite <- ?app_assoc; cbn [app])).
 
 (* ------------------------------------------------------------------------------------------------ *)
@@ -335,8 +448,12 @@ Proof.
     pose proof (firstn_skipn (groups_len (t :: rest') 0%Z) (t :: rest')) as Hfs.
     set (n := groups_len (t :: rest') 0%Z) in *. clearbody n.
     set (gs := firstn n (t :: rest')) in *. set (after := skipn n (t :: rest')) in *. clearbody gs after.
-    destruct (groups_b gs) eqn:Hgs; cbn [negb] in H; [| discriminate].
-    apply groups_b_sound in Hgs.
+    destruct (groups_b gs || (is_jsts l && bgroups_b gs)) eqn:Hgb; cbn [negb] in H; [| discriminate].
+    assert (Hbg : is_jsts l = true -> bgroups gs).
+    { intros Hj. apply orb_true_iff in Hgb. destruct Hgb as [Hg | Hb].
+      - apply groups_bgroups_local. apply groups_b_sound. exact Hg.
+      - apply andb_true_iff in Hb. destruct Hb as [_ Hb]. apply bgroups_b_sound. exact Hb. }
+    clear Hgb.
     destruct (split_last ws) as [[before w] |] eqn:Hsl; [| discriminate].
     apply split_last_spec in Hsl.
     destruct (is_name w) eqn:Hnw.
@@ -351,21 +468,24 @@ Proof.
       clear Ets Hsl Ebefore Hfs Hws.
       destruct after as [| a after']; [discriminate |].
       destruct (is_lbrace a) eqn:Hla.
-      + destruct (is_cfamily l || is_jsts l) eqn:Hlang; [| discriminate].
+      + destruct (is_cfamily l && groups_b gs || is_jsts l) eqn:Hlang; [| discriminate].
         inversion H; subst hk out. cbn [head_ok]. split; [exact Ets2 |].
         destruct Hfk as [Efk | (k & Efk & Hj & Hk)]; subst fk; cbn [app length].
         * apply orb_true_iff in Hlang. destruct Hlang as [Hcf | Hj].
-          -- apply fh_plain; assumption.
-          -- apply fh_method; assumption.
-        * apply fh_function; assumption.
-      + destruct (is_java l && kw_is a s_throws && Nat.eqb (length fk) 0) eqn:Hthr.
+          -- apply andb_true_iff in Hcf. destruct Hcf as [Hcf Hgs]. apply groups_b_sound in Hgs.
+             apply fh_plain; assumption.
+          -- apply fh_method; try assumption. apply Hbg. exact Hj.
+        * apply fh_function; try assumption. apply Hbg. exact Hj.
+      + destruct (is_java l && groups_b gs && kw_is a s_throws && Nat.eqb (length fk) 0) eqn:Hthr.
         * cbn [tl] in H.
           destruct (take_until_brace after') as [clause rest2] eqn:Htb.
           apply take_until_brace_spec in Htb.
           destruct (forallb clause_tok clause) eqn:Hcl; [| discriminate].
           inversion H; subst hk out. cbn [head_ok].
           apply andb_true_iff in Hthr. destruct Hthr as [Hthr Hfk0].
-          apply andb_true_iff in Hthr. destruct Hthr as [Hjava Hka].
+          apply andb_true_iff in Hthr. destruct Hthr as [Hthr Hka].
+          apply andb_true_iff in Hthr. destruct Hthr as [Hjava Hgs].
+          apply groups_b_sound in Hgs.
           apply Nat.eqb_eq in Hfk0. destruct fk as [| k0 fk']; [| discriminate].
           split.
           -- rewrite Ets2, Htb. list_norm. reflexivity.
@@ -380,6 +500,7 @@ Proof.
           inversion H; subst hk out. cbn [head_ok].
           apply andb_true_iff in Hcol. destruct Hcol as [Hts Hca].
           assert (El : l = LTypeScript) by (destruct l; try discriminate; reflexivity).
+          assert (Hbgs : bgroups gs) by (apply Hbg; rewrite El; reflexivity).
           split.
           -- rewrite Ets2, Htb. list_norm. reflexivity.
           -- destruct Hfk as [Efk | (k & Efk & Hj & Hk)]; subst fk; cbn [app length].
@@ -387,7 +508,8 @@ Proof.
              ++ apply fh_function_ret; assumption.
     - (* a control form with a condition *)
       destruct ws as [| kw words]; [discriminate |].
-      destruct (is_keyword kw) eqn:Hkw; [| discriminate].
+      destruct (is_keyword kw && groups_b gs) eqn:Hkw; [| discriminate].
+      apply andb_true_iff in Hkw. destruct Hkw as [Hkw Hgs]. apply groups_b_sound in Hgs.
       inversion H; subst hk out. cbn [head_ok]. split; [| split].
       + rewrite Ets, <- Hfs. list_norm. reflexivity.
       + exact Hkw.
@@ -412,9 +534,13 @@ Proof.
   set (n := groups_len rest2 0%Z) in *. clearbody n.
   set (gs := firstn n rest2) in *. clearbody gs.
   destruct (skipn n rest2) as [| arrow after]; [discriminate |].
-  destruct (groups_b gs && is_symbol arrow s_arrow) eqn:Hga; [| discriminate].
+  destruct ((groups_b gs || bgroups_b gs) && is_symbol arrow s_arrow) eqn:Hga; [| discriminate].
   apply andb_true_iff in Hga. destruct Hga as [Hgs Harrow].
-  apply groups_b_sound in Hgs.
+  assert (Hbgs : bgroups gs).
+  { apply orb_true_iff in Hgs. destruct Hgs as [Hg | Hb].
+    - apply groups_bgroups_local. apply groups_b_sound. exact Hg.
+    - apply bgroups_b_sound. exact Hb. }
+  clear Hgs.
   inversion H; subst hk out. cbn [head_ok]. split.
   - rewrite Ets, Hsl, Ebefore, Erest', <- Hfs. list_norm. reflexivity.
   - destruct Hck as [Eck | (k & Eck & Hk)]; destruct Hak as [Eak | (a & Eak & Ha)]; subst ck ak;
@@ -441,19 +567,6 @@ Lemma skipn_S_app : forall (A : Type) (a : list A) (x : A) (b : list A),
   skipn (S (length a)) (a ++ x :: b) = b.
 Proof.
   intros A a x b. induction a as [| y a IHa]; [reflexivity | exact IHa].
-Qed.
-
-Lemma take_plain_spec : forall ts p rest,
-  take_plain ts = (p, rest) -> ts = p ++ rest /\ forallb plain p = true.
-Proof.
-  induction ts as [| t r IHr]; intros p rest H; simpl in H.
-  - inversion H. split; reflexivity.
-  - destruct (plain t) eqn:Hp.
-    + destruct (take_plain r) as [p' rest'] eqn:Htp. inversion H; subst p rest. clear H.
-      destruct (IHr p' rest' eq_refl) as [E Hf]. split.
-      * simpl. rewrite <- E. reflexivity.
-      * simpl. rewrite Hp, Hf. reflexivity.
-    + inversion H. split; reflexivity.
 Qed.
 
 Lemma init_len_split : forall ts n, init_len ts = Some n ->
